@@ -885,6 +885,35 @@ def evaluator_arms(repo):
             out['src/' + rel] = {'arms': {}, 'other': '', 'literals': sorted(set(x.replace('_', '') for x in re.findall(r'(?<![\w.])\d[\d_]*(?:\.\d[\d_]*)?(?:e-?\d+)?', src)))}
     return out
 
+def cfg_sites(repo):
+    """every conditional-compilation expression of the crate (#[cfg(..)], #[cfg_attr(..)], cfg!(..)) per source file, hook lines
+    excluded: behaviour can differ between feature subsets only through these"""
+    out = {}
+    for root, _, fs in os.walk(os.path.join(repo, 'src')):
+        for f in sorted(fs):
+            rel = os.path.relpath(os.path.join(root, f), os.path.join(repo, 'src'))
+            if not f.endswith('.rs') or rel == 'verif_hooks.rs':
+                continue
+            src = strip_hooks(read_rs(os.path.join(root, f)))
+            found = []
+            for m in re.finditer(r'cfg(?:_attr)?\s*!?\s*\(', src):
+                try:
+                    depth, j = 0, m.end() - 1
+                    while j < len(src):
+                        if src[j] == '(':
+                            depth += 1
+                        elif src[j] == ')':
+                            depth -= 1
+                            if depth == 0:
+                                break
+                        j += 1
+                    found.append(norm(src[m.start():j + 1]))
+                except Exception:
+                    pass
+            if found:
+                out[rel] = sorted(found)
+    return out
+
 def scan_statics(repo):
     found = []
     for root, _, files in os.walk(os.path.join(repo, 'src')):
@@ -995,7 +1024,7 @@ def main():
             mods[ev] = hashlib.sha256(norm(fn_body(ms, 'eval_' + ev) or '').encode()).hexdigest()
         ds = read_rs(os.path.join(a.repo, 'src', 'utils', 'deserialize_superscript_number.rs'))
         json.dump({'engine': eng, 'mods': mods, 'deser': hashlib.sha256(norm(ds).encode()).hexdigest(),
-                   'evaluators': evaluator_hashes(a.repo), 'evaluator_arms': evaluator_arms(a.repo)}, open(a.shape, 'w'), indent=1)
+                   'evaluators': evaluator_hashes(a.repo), 'evaluator_arms': evaluator_arms(a.repo), 'cfg_sites': cfg_sites(a.repo)}, open(a.shape, 'w'), indent=1)
         print('wrote', a.shape)
         return
     notes = []
@@ -1022,6 +1051,11 @@ def main():
         report['evaluator_changes'] = loc
     except Exception as e:      # localisation is a search aid only
         report['evaluator_changes'] = {'error': str(e)}
+    try:
+        cur_cfg, rec_cfg = cfg_sites(a.repo), shape.get('cfg_sites', None)
+        report['cfg_sites_changed'] = [] if rec_cfg is None else sorted(k for k in set(cur_cfg) | set(rec_cfg) if cur_cfg.get(k) != rec_cfg.get(k))
+    except Exception as e:
+        report['cfg_sites_changed'] = ['error: ' + str(e)]
     sup = translate_sup_map(a.repo, notes)
     cats = translate_categories(a.repo, notes)
     if cats is not None:
